@@ -115,6 +115,8 @@ package imports
 //@   ensures (old(r.err) != nil ==> r.err == old(r.err)) && (old(r.eof) ==> r.eof)
 //@   ensures r.eof ==> gPos == gLen
 //@   ensures r.err == old(r.err) || r.err != errSyntax
+//@   ensures gPos > old(gPos) || r.eof || r.err != nil
+//@   ensures gPos == old(gPos) || (gPos == old(gPos) + 1 && gPos <= gLen)
 //@   ensures old(gPos) == gLen ==> gPos == gLen
 
 // representation invariant of the reader between calls
@@ -135,6 +137,7 @@ package imports
 //@   loop 1: invariant old(r.err) == nil
 //@   loop 1: invariant (old(r.eof) ==> r.eof)
 //@   loop 1: invariant (r.eof ==> gPos == gLen)
+//@   loop 2: decreases (gPos <= gLen ? gLen - gPos : 0) + (r.eof ? 0 : 1) + (r.err == nil ? 1 : 0)
 //@   loop 2: invariant bufIsB(r.buf, gIn, gPos, gBase) && (r.err == nil || r.err == errSyntax || r.err == errNUL || isReadErr(r.err))
 //@   loop 2: invariant len(r.buf) >= old(len(r.buf))
 //@   loop 2: invariant (c == 0 ==> r.eof || r.err != nil)
@@ -170,6 +173,9 @@ package imports
 //@ func (*importReader).readKeyword
 //@   requires r != nil && r.b != nil && bufIsB(r.buf, gIn, gPos, gBase) && (r.err == nil || r.err == errSyntax || r.err == errNUL || isReadErr(r.err)) && peekOK(r.buf, r.peek) && (r.eof ==> gPos == gLen) && r.nerr + len(kw) + 2 <= 10000
 //@   modifies F_S_imports_importReader_buf, F_S_imports_importReader_err, F_S_imports_importReader_eof, F_S_imports_importReader_peek, F_S_imports_importReader_nerr, bytes, gPos
+//@   at call (*imports.importReader).nextByte#0: requires !skipSpace
+//@   at call (*imports.importReader).peekByte#1: requires skipSpace
+//@   at call (*imports.importReader).peekByte#2: requires !skipSpace
 //@   loop 1: invariant bufIsB(r.buf, gIn, gPos, gBase) && (r.err == nil || r.err == errSyntax || r.err == errNUL || isReadErr(r.err))
 //@   loop 1: invariant len(r.buf) >= old(len(r.buf))
 //@   loop 1: invariant (old(r.err) != nil ==> r.err == old(r.err))
